@@ -100,6 +100,13 @@ def entity(kind, path):
         return [D.cls(C, [D.ctor(C), D.method(single(T('void')), 'serialize', [], 1), D.method(single(I), 'x', [], 1)]),
                 D.cls('St' + s, [D.ctor('St' + s), D.static(single(I), 'Count', []), D.prop(I, 'p')]),
                 D.cls('Sb' + s, [D.method(single(T('void')), 'serializable', [], 1), D.method(single(I), 'y', [], 1)])]
+    if kind == 'specialbase':
+        # user classes that are called like the built-in fixed-size types, used as base classes
+        out = [D.cls('Point3', [D.ctor('Point3'), D.method(single(I), 'norm' + s, [], 1)], v=1),
+               D.cls('Pd' + s, [D.ctor('Pd' + s)], v=1, b=T(q(path, 'Point3')))]
+        if path:
+            out += [D.cls('Matrix', [D.ctor('Matrix')], v=1), D.cls('Md' + s, [D.ctor('Md' + s), D.method(single(I), 'rows', [], 1)], v=1, b=T(q(path, 'Matrix')))]
+        return out
     if kind == 'prefixnames':
         # the (flattened) name of a later class is a prefix of an earlier one, and the other way round
         return [D.cls('Pose' + s + '2', [D.ctor('Pose' + s + '2'), D.method(single(I), 'two', [], 1)], v=1),
@@ -108,7 +115,7 @@ def entity(kind, path):
     raise ValueError(kind)
 
 
-KINDS = ['class_full', 'tclass', 'typedef', 'enumclass', 'derived', 'noctor', 'enum', 'func', 'tfunc', 'var', 'serial', 'samename', 'prefixnames']
+KINDS = ['class_full', 'tclass', 'typedef', 'enumclass', 'derived', 'noctor', 'enum', 'func', 'tfunc', 'var', 'serial', 'samename', 'prefixnames', 'specialbase']
 
 
 def build(kinds):
